@@ -365,7 +365,7 @@ Lemma same_flags_ws x st : same_flags x (with_state x st). Proof. repeat split. 
 
 Definition Inv (x : sstate) : Prop :=
   (opt = true -> good (ss x) /\ kinstr_ok (ss x)) /\
-  (forall i, flag (fz_instr x) i = true -> exists d, nth_error (s_instr (ss x)) i = Some d /\ frozen_instr_ok i d) /\
+  (forall i, flag (fz_instr x) i = true -> opt = true /\ exists d, nth_error (s_instr (ss x)) i = Some d /\ frozen_instr_ok i d) /\
   (forall d, flag (fz_data x) d = true -> exists b, nth_error (s_data (ss x)) d = Some b /\
       forall w elems e, In (NData w elems) ns -> In (d, e) elems -> frozen_data_ok d w e b) /\
   (forall s, flag (fz_sym x) s = true -> opt = true /\ exists e, In (NConst s e) ns /\ const_known e = true) /\
@@ -498,6 +498,182 @@ Proof.
            ** intros _. split; [apply same_flags_ws|congruence].
         -- rewrite with_state_ss. apply Cont; [exact HI|apply le_merge; [exact Hle|apply le_res_refl]|apply sub_flags_refl|].
            intros _. split; [apply same_flags_refl|congruence].
+Qed.
+
+(* ---------- simulation, one node ---------- *)
+Definition upd_instr (st : state) (i : nat) (d : instr_def) : state :=
+  {| s_sym := s_sym st; s_instr := set_nth (s_instr st) i d; s_data := s_data st; s_res := s_res st; s_align := s_align st; s_addr := s_addr st |}.
+
+Lemma kinstr_upd st i d d' : kinstr_ok st -> nth_error (s_instr st) i = Some d -> i_matches d' = i_matches d ->
+  kinstr_ok (upd_instr st i d').
+Proof.
+  intros Hk Hd Hm j dj Hj Fj. cbn [upd_instr s_instr] in Hj. destruct (Nat.eq_dec j i) as [->|Hne].
+  - rewrite (nth_error_set_nth_same _ _ _ _ Hd) in Hj. inversion Hj; subst dj. rewrite Hm. exact (Hk i d Hd Fj).
+  - rewrite nth_error_set_nth_other in Hj by exact Hne. exact (Hk j dj Hj Fj).
+Qed.
+
+Lemma inv_instr_write x i d d' : Inv x -> flag (fz_instr x) i = false -> nth_error (s_instr (ss x)) i = Some d ->
+  i_matches d' = i_matches d -> Inv (with_state x (upd_instr (ss x) i d')).
+Proof.
+  intros (I1 & I2 & I3 & I4 & I5) Fi Hd Hm. unfold Inv. cbn [ss with_state upd_instr fz_sym fz_instr fz_data s_sym s_instr s_data].
+  split; [|split; [|split; [|split]]].
+  - intro Ho. destruct (I1 Ho) as [Hg Hk]. split; [eapply good_same_syms; [|exact Hg]; reflexivity|].
+    exact (kinstr_upd _ _ _ _ Hk Hd Hm).
+  - intros j Fj. destruct (I2 j Fj) as [Ho [dj [Hj Hokj]]]. split; [exact Ho|]. exists dj. split; [|exact Hokj].
+    rewrite nth_error_set_nth_other; [exact Hj|]. intro; subst; congruence.
+  - exact I3.
+  - exact I4.
+  - exact I5.
+Qed.
+
+Lemma inv_instr_freeze x i d d' : Inv x -> opt = true -> nth_error (s_instr (ss x)) i = Some d ->
+  i_matches d' = i_matches d -> frozen_instr_ok i d' ->
+  Inv {| ss := upd_instr (ss x) i d'; fz_sym := fz_sym x; fz_instr := set_nth (fz_instr x) i true; fz_data := fz_data x |}.
+Proof.
+  intros (I1 & I2 & I3 & I4 & I5) Ho Hd Hm Hf. unfold Inv. cbn [ss upd_instr fz_sym fz_instr fz_data s_sym s_instr s_data].
+  split; [|split; [|split; [|split]]].
+  - intros _. destruct (I1 Ho) as [Hg Hk]. split; [eapply good_same_syms; [|exact Hg]; reflexivity|].
+    exact (kinstr_upd _ _ _ _ Hk Hd Hm).
+  - intros j Fj. split; [exact Ho|]. destruct (Nat.eq_dec j i) as [->|Hne].
+    + exists d'. split; [exact (nth_error_set_nth_same _ _ _ _ Hd)|exact Hf].
+    + rewrite flag_set_other in Fj by exact Hne. destruct (I2 j Fj) as [_ [dj [Hj Hokj]]]. exists dj. split; [|exact Hokj].
+      rewrite nth_error_set_nth_other by exact Hne. exact Hj.
+  - exact I3.
+  - exact I4.
+  - exact I5.
+Qed.
+
+Lemma kinstr_same st st' : s_instr st' = s_instr st -> kinstr_ok st -> kinstr_ok st'.
+Proof. intros E Hk i d Hd. rewrite E in Hd. exact (Hk i d Hd). Qed.
+
+Lemma inv_plain n x pos st' r pos' : plain n -> In n ns -> Inv x ->
+  resolve_node names defs last n (ss x) pos = EOk (st', r, pos') -> Inv (with_state x st').
+Proof.
+  intros Hp Hin (I1 & I2 & I3 & I4 & I5) H. destruct (plain_keeps _ _ _ _ _ _ _ Hp H) as [Ei Ed].
+  unfold Inv. cbn [ss with_state fz_sym fz_instr fz_data]. rewrite Ei, Ed.
+  split; [|split; [|split; [|split]]]; auto.
+  intro Ho. destruct (I1 Ho) as [Hg Hk]. split.
+  - eapply good_step; [exact (proj2 (Hcan Ho))|exact Hg|exact Hin|exact H].
+  - eapply kinstr_same; eauto.
+Qed.
+
+Lemma inv_sym_flag y s : Inv y -> opt = true -> (exists e, In (NConst s e) ns /\ const_known e = true) ->
+  Inv {| ss := ss y; fz_sym := set_nth (fz_sym y) s true; fz_instr := fz_instr y; fz_data := fz_data y |}.
+Proof.
+  intros (I1 & I2 & I3 & I4 & I5) Ho He. unfold Inv. cbn [ss fz_sym fz_instr fz_data].
+  split; [|split; [|split; [|split]]]; auto.
+  intros s0 F0. destruct (flag_true_set _ _ _ F0) as [->|F]; [split; assumption|exact (I4 s0 F)].
+Qed.
+
+Definition npost (x : sstate) (st' : state) (rF : resolution) (x' : sstate) (rT : resolution) : Prop :=
+  ss x' = st' /\ le_res rF rT /\ (opt && first = false -> same_flags x x' /\ rT = rF) /\ Inv x' /\ sub_flags x x'.
+
+Lemma npost_same x st' r : Inv (with_state x st') -> npost x st' r (with_state x st') r.
+Proof.
+  intro HI. unfold npost. split; [reflexivity|]. split; [apply le_res_refl|]. split; [intros _; split; [apply same_flags_ws|reflexivity]|].
+  split; [exact HI|apply sub_flags_ws].
+Qed.
+
+Lemma node_sim n x pos : In n ns -> Inv x ->
+  match resolve_node names defs last n (ss x) pos with
+  | EErr => resolve_nodeS names defs K opt first last n x pos = EErr
+  | EOk (st', rF, pos') => exists x' rT, resolve_nodeS names defs K opt first last n x pos = EOk (x', rT, pos') /\ npost x st' rF x' rT
+  end.
+Proof.
+  intros Hin HI.
+  assert (Plain : plain n ->
+    (resolve_nodeS names defs K opt first last n x pos =
+       match resolve_node names defs last n (ss x) pos with EErr => EErr | EOk (st', res, pos') => EOk (with_state x st', res, pos') end) ->
+    match resolve_node names defs last n (ss x) pos with
+    | EErr => resolve_nodeS names defs K opt first last n x pos = EErr
+    | EOk (st', rF, pos') => exists x' rT, resolve_nodeS names defs K opt first last n x pos = EOk (x', rT, pos') /\ npost x st' rF x' rT
+    end).
+  { intros Hp E. rewrite E. destruct (resolve_node names defs last n (ss x) pos) as [[[st' r] p']|] eqn:F; [|reflexivity].
+    exists (with_state x st'), r. split; [reflexivity|]. apply npost_same. eapply inv_plain; eauto. }
+  destruct n as [s|s e|i src|width elems|k e|k e|k e].
+  - apply Plain; [exact I|reflexivity].
+  - (* constant *)
+    cbn [resolve_nodeS]. destruct (flag (fz_sym x) s) eqn:Fs.
+    + pose proof HI as (I1 & I2 & I3 & I4 & I5). destruct (I4 s Fs) as [Ho [e' [Hin' Hk']]].
+      assert (e' = e) by (eapply const_unique; [exact (proj2 (Hcan Ho))|exact Hin'|exact Hin]). subst e'.
+      rewrite (const_noop (ss x) pos last s e (proj1 (I1 Ho)) Hin Hk').
+      exists x, Resolved. split; [reflexivity|]. unfold npost. split; [reflexivity|]. split; [apply le_res_refl|].
+      split; [intros _; split; [apply same_flags_refl|reflexivity]|]. split; [exact HI|apply sub_flags_refl].
+    + destruct (resolve_node names defs last (NConst s e) (ss x) pos) as [[[st' r] p']|] eqn:F; [|reflexivity].
+      assert (HI' : Inv (with_state x st')) by (eapply inv_plain; eauto; exact I).
+      destruct (opt && first && flag (k_sym K) s) eqn:C.
+      * apply andb_prop in C. destruct C as [C Ck]. pose proof C as Cof. apply andb_prop in C. destruct C as [Ho Hf].
+        eexists. exists Resolved. split; [reflexivity|]. unfold npost. cbn [ss]. split; [reflexivity|]. split; [intros _; reflexivity|].
+        split; [intro Hc; rewrite Cof in Hc; discriminate Hc|]. split.
+        -- apply (inv_sym_flag (with_state x st') s HI' Ho). apply HKsym. unfold flag in Ck.
+           destruct (nth_error (k_sym K) s) as [b|]; [subst b; reflexivity|discriminate].
+        -- repeat split; cbn [fz_sym fz_instr fz_data]; auto. intros j Hj. apply flag_set_mono. exact Hj.
+      * exists (with_state x st'), r. split; [reflexivity|]. apply npost_same. exact HI'.
+  - (* instruction *)
+    cbn [resolve_nodeS]. destruct (nth_error (s_instr (ss x)) i) as [d|] eqn:Hd; [|cbn [resolve_node]; rewrite Hd; reflexivity].
+    destruct (flag (fz_instr x) i) eqn:Fi.
+    + pose proof HI as (I1 & I2 & I3 & I4 & I5). destruct (I2 i Fi) as [Ho [d0 [Hd0 Hokd]]].
+      rewrite Hd in Hd0. inversion Hd0; subst d0.
+      rewrite (Hokd (ss x) pos last src (proj1 (I1 Ho)) Hd).
+      exists x, Resolved. split; [reflexivity|]. unfold npost. split; [reflexivity|]. split; [apply le_res_refl|].
+      split; [intros _; split; [apply same_flags_refl|reflexivity]|]. split; [exact HI|apply sub_flags_refl].
+    + cbn [resolve_node]. rewrite Hd. rewrite resolve_encoding_smallest.
+      destruct (smallest_encodings defs (pvar names (ss x) pos (negb last)) (negb last) (i_matches d)) as [encs|] eqn:Es; [|reflexivity].
+      set (chosen := match encs with Some c => hd_error c | None => None end).
+      assert (Ech : match encs with None => EOk None | Some c => EOk (hd_error c) end = EOk chosen) by (destruct encs; reflexivity).
+      rewrite Ech. clear Ech. cbv zeta.
+      set (d' := match chosen with Some b => {| i_matches := i_matches d; i_enc := b |} | None => d end).
+      assert (Hm : i_matches d' = i_matches d) by (unfold d'; destruct chosen; reflexivity).
+      fold (upd_instr (ss x) i d').
+      match goal with |- context [if ?c then EOk ({| ss := _; fz_sym := _; fz_instr := set_nth _ _ _; fz_data := _ |}, _, _) else _] => destruct c eqn:Fz end.
+      * (* flagged now *)
+        destruct chosen as [b|] eqn:Hch; [|discriminate].
+        apply andb_prop in Fz. destruct Fz as [Fz Hsingle]. apply andb_prop in Fz. destruct Fz as [Cof Ki].
+        pose proof Cof as Cof'. apply andb_prop in Cof. destruct Cof as [Ho Hf].
+        destruct encs as [c|]; [|discriminate]. apply Nat.eqb_eq in Hsingle.
+        assert (c = [b]).
+        { destruct c as [|b1 [|b2 c]]; cbn in Hsingle; try discriminate. unfold chosen in Hch. cbn in Hch. congruence. }
+        subst c.
+        pose proof HI as (I1 & I2 & I3 & I4 & I5). destruct (I1 Ho) as [Hg Hk]. destruct (Hk i d Hd Ki) as [Hkn Hkd].
+        eexists. exists Resolved. split; [reflexivity|]. unfold npost. cbn [ss]. split; [reflexivity|]. split; [intros _; reflexivity|].
+        split; [intro Hc; rewrite Cof' in Hc; discriminate Hc|]. split.
+        -- eapply inv_instr_freeze; eauto. unfold d'. eapply freeze_instr_ok; eauto.
+        -- repeat split; cbn [fz_sym fz_instr fz_data]; auto. intros j Hj. apply flag_set_mono. exact Hj.
+      * eexists (with_state x (upd_instr (ss x) i d')), _. split; [reflexivity|]. apply npost_same.
+        eapply inv_instr_write; eauto.
+  - (* data *)
+    cbn [resolve_node resolve_nodeS].
+    pose proof (data_sim width elems Hin elems (fun y Hy => Hy) x pos Resolved Resolved HI (le_res_refl _)) as H.
+    destruct (data_go names last width elems (ss x) pos Resolved) as [[[st' rF] p']|]; [|exact H].
+    destruct H as (x' & rT & HT & Hss & Hr & Hsm & HI' & Hsub). exists x', rT. split; [exact HT|].
+    unfold npost. split; [exact Hss|]. split; [exact Hr|]. split; [|split; assumption].
+    intro Hof. destruct (Hsm Hof) as [Hs Ha]. split; [exact Hs|apply Ha; reflexivity].
+  - apply Plain; [exact I|reflexivity].
+  - apply Plain; [exact I|reflexivity].
+  - apply Plain; [exact I|reflexivity].
+Qed.
+
+(* ---------- simulation, one pass ---------- *)
+Lemma pass_sim : forall l, incl l ns -> forall x pos accF accT, Inv x -> le_res accF accT ->
+  match pass names defs last l (ss x) pos accF with
+  | EErr => passS names defs K opt first last l x pos accT = EErr
+  | EOk (st', rF) => exists x' rT, passS names defs K opt first last l x pos accT = EOk (x', rT) /\
+                                   post x accF accT st' rF x' rT
+  end.
+Proof.
+  induction l as [|n l IH]; intros Hincl x pos accF accT HI Hle.
+  - cbn [pass passS]. exists x, accT. split; [reflexivity|]. unfold post.
+    split; [reflexivity|]. split; [exact Hle|]. split; [intros _; split; [apply same_flags_refl|auto]|]. split; [exact HI|apply sub_flags_refl].
+  - cbn [pass passS]. pose proof (node_sim n x pos (Hincl n (or_introl eq_refl)) HI) as Hn.
+    destruct (resolve_node names defs last n (ss x) pos) as [[[st1 r1] p1]|]; [|rewrite Hn; reflexivity].
+    destruct Hn as (x1 & rT1 & HT1 & Hss1 & Hr1 & Hsm1 & HI1 & Hsub1). rewrite HT1. subst st1.
+    assert (Hincl' : incl l ns) by (intros y Hy; apply Hincl; now right).
+    specialize (IH Hincl' x1 p1 (merge accF r1) (merge accT rT1) HI1 (le_merge _ _ _ _ Hle Hr1)).
+    destruct (pass names defs last l (ss x1) p1 (merge accF r1)) as [[st' rF]|]; [|exact IH].
+    destruct IH as (x' & rT & HT & Hss & Hr & Hsm & HI' & Hsub). exists x', rT. split; [exact HT|].
+    unfold post. split; [exact Hss|]. split; [exact Hr|]. split; [|split; [exact HI'|eapply sub_flags_trans; eauto]].
+    intro Hof. destruct (Hsm1 Hof) as [Hs1 Ha1]. destruct (Hsm Hof) as [Hs2 Ha2].
+    split; [eapply same_flags_trans; eauto|]. intro Hacc. apply Ha2. subst accT. rewrite Ha1. reflexivity.
 Qed.
 
 End Sim.
